@@ -37,6 +37,7 @@ import (
 	"strconv"
 	"strings"
 	"sync"
+	"sync/atomic"
 	"time"
 
 	"github.com/aperturerobotics/util/keyed"
@@ -322,7 +323,30 @@ func exec(script []string, opt comp.Options) (res comp.Result) {
 
 	burstStart := time.Now()
 	advances := 0
+	// scheduler canary: a goroutine that should wake up every 250µs. A wake-up that is more than stallLimit
+	// late while a callback is held at the gate means that the machine is too loaded for the short
+	// quiescence wait of opengate (a goroutine started by a call may not have run yet): such a run is
+	// marked unstable and not compared, like a burst that took too long.
+	const stallLimit = 2 * time.Millisecond
+	var lastStall atomic.Int64
+	canaryStop := make(chan struct{})
+	defer close(canaryStop)
+	go func() {
+		for {
+			select {
+			case <-canaryStop:
+				return
+			default:
+			}
+			t := time.Now()
+			time.Sleep(250 * time.Microsecond)
+			if time.Since(t) > 250*time.Microsecond+stallLimit {
+				lastStall.Store(time.Now().UnixNano())
+			}
+		}
+	}()
 	var held *hook.Gate
+	var holdStart time.Time
 	openGate := func() {
 		if held == nil {
 			return
@@ -331,7 +355,11 @@ func exec(script []string, opt comp.Options) (res comp.Result) {
 		held = nil
 		// the callback that was held runs at once; timers armed since the advance must not expire
 		// before the next advance line, so this wait is short and counts as part of the burst
+		t0 := time.Now()
 		comp.WaitQuiet(log, 1500*time.Microsecond, 6*time.Millisecond)
+		if lastStall.Load() > holdStart.UnixNano() || time.Since(t0) > 6*time.Millisecond+stallLimit {
+			res.Unstable = true
+		}
 		log.Add("quiesce")
 	}
 	waitHit := func(g hook.Gate, d time.Duration) <-chan struct{} {
@@ -659,6 +687,7 @@ func exec(script []string, opt comp.Options) (res comp.Result) {
 				// a timer callback (or an exit bookkeeping) has fired and waits for the mutex
 				tags.Add("callback-held-at-mutex")
 				held = &g
+				holdStart = time.Now()
 				comp.WaitQuiet(log, opt.Grace, 10*opt.Grace)
 			} else {
 				g.Open()
